@@ -761,6 +761,10 @@ class ExprMixin:
             kc = self.path.cell(key)
             if isinstance(kc, ObjCell) and "g_value" in kc.attrs:
                 return kc.attrs["g_value"]
+        if isinstance(key, MapElem):
+            mc = self.old_heap[key.map_ref.addr] if key.old else self.path.cell(key.map_ref)
+            if "g_value" in mc.fields and mc.fields["g_value"][0] in ("int", "bool"):
+                return self.get_attr(key, "g_value")
         return key
 
     def dict_key(self, cell, idx):
